@@ -8,6 +8,10 @@ clean-up loops, and the destructors C++ runs by itself (members / bases that wer
 constructed, locals) — and nothing else.  In particular the destructor of an object whose
 constructor body throws is **not** run.
 
+Naming: a machine without suffix follows the code **with the repair of `/verif/fixes/fix_c14_*.diff`**
+(what the harness measures once the patch is in the tree); `…AsWritten` is the historical
+witness: the code as it was found, kept to state exactly what went wrong.
+
 `runWithFaultAt input k` = run the protocol with the `k`-th event failing, unwind, then destroy
 every object that still exists; the result carries the live set, the number of frees of blocks
 that were not live (double free / unknown block), and the validity of the object right after the
@@ -158,9 +162,21 @@ def cotreeCopy (x : List Bool) (h : Heap) : Outcome :=
 /-- `CO_Tree::operator=(const CO_Tree& y)` on a live tree `t0`:
 `destroy(); init(y.reserved_size); copy_data_from(y);` — the object survives an exception and is
 destroyed later. -/
-def cotreeAssign (t0 : Tree) (x : List Bool) (h : Heap) : Outcome :=
+def cotreeAssignAsWritten (t0 : Tree) (x : List Bool) (h : Heap) : Outcome :=
   let h0 := cotDestroy t0 h
   match cotInit t0.cached x.length h0 with
+  | (true, t, h1) => Outcome.ofHeap true t.ok (cotDestroy t h1)
+  | (false, t, h1) =>
+    match copyDataFrom t x h1 with
+    | (true, t', h2) => Outcome.ofHeap true t'.ok (cotDestroy t' h2)
+    | (false, t', h2) => Outcome.ofHeap false t'.ok (cotDestroy t' h2)
+
+/-- `CO_Tree::operator=` with the repaired `init` (fix_c14_cotree_init_cached_iterators): `init`
+refreshes the cached iterators right after it has emptied the tree, so a throwing allocation
+leaves the valid empty tree. -/
+def cotreeAssign (t0 : Tree) (x : List Bool) (h : Heap) : Outcome :=
+  let h0 := cotDestroy t0 h
+  match cotInit none x.length h0 with
   | (true, t, h1) => Outcome.ofHeap true t.ok (cotDestroy t h1)
   | (false, t, h1) =>
     match copyDataFrom t x h1 with
@@ -179,7 +195,7 @@ def fillLoop : Nat → List Nat → Heap → Bool × List Nat × Heap
 /-- `CO_Tree::CO_Tree(Iterator i, dimension_type n)`: `init(reserved_size)` then the fill loop.
 A constructor body: if an element copy throws, `~CO_Tree()` is not run and the function has no
 handler — the arrays and the elements built so far stay allocated. -/
-def cotreeIter (n : Nat) (h : Heap) : Outcome :=
+def cotreeIterAsWritten (n : Nat) (h : Heap) : Outcome :=
   if n = 0 then Outcome.ofHeap false true h else
   match cotInit none n h with
   | (true, _, h1) => Outcome.ofHeap true true h1
@@ -190,8 +206,10 @@ def cotreeIter (n : Nat) (h : Heap) : Outcome :=
       let t' := { t with elems := es, size := n }
       Outcome.ofHeap false (t'.ok) (cotDestroy t' h2)
 
-/-- The same constructor with the missing handler added (what `copy_data_from` does). -/
-def cotreeIterGuarded (n : Nat) (h : Heap) : Outcome :=
+/-- The constructor with the handler of fix_c14_cotree_iterator_ctor_leak: `catch (...) { destroy();
+init(0); throw; }` around the fill loop (and the index of a slot is set only after its element
+has been built, so `destroy()` sees exactly the constructed elements). -/
+def cotreeIter (n : Nat) (h : Heap) : Outcome :=
   if n = 0 then Outcome.ofHeap false true h else
   match cotInit none n h with
   | (true, _, h1) => Outcome.ofHeap true true h1
@@ -265,11 +283,22 @@ def denseCopy (m cap : Nat) (h : Heap) : Outcome :=
 `destroy(); init(row);`.  `destroy()` deallocates `impl.vec` **without resetting the pointer**, and
 `init` assigns `impl.vec` only after its allocation succeeded: if that allocation throws, the row
 still holds the released pointer and `~Impl()` deallocates it a second time. -/
-def denseAssignSparse (r : DRow) (m : Nat) (h : Heap) : Outcome :=
+def denseAssignSparseAsWritten (r : DRow) (m : Nat) (h : Heap) : Outcome :=
   let h1 := (h.freeAll r.elems.reverse).freeOpt r.vec          -- destroy()
   match h1.alloc with                                           -- init(row): impl.vec = allocate(row.size())
   | (none, h2) => Outcome.ofHeap true (DRow.ok { vec := r.vec, cap := m, elems := [] }) (drowDestroy { vec := r.vec, cap := m, elems := [] } h2)
   | (some v, h2) => finishGrow (growLoop m { vec := some v, cap := m, elems := [] } h2)
+
+/-- The reallocation branch after fix_c14_dense_row_assign_sparse_double_free:
+`Dense_Row tmp(row); m_swap(tmp);` — nothing of the receiver is released before the new row is
+complete; `tmp` (a local) is destroyed on every path. -/
+def denseAssignSparse (r : DRow) (m : Nat) (h : Heap) : Outcome :=
+  match h.alloc with                                           -- tmp: impl.vec = allocate(row.size())
+  | (none, h1) => Outcome.ofHeap true r.ok (drowDestroy r h1)
+  | (some v, h1) =>
+    match growLoop m { vec := some v, cap := m, elems := [] } h1 with
+    | (true, tmp, h2) => Outcome.ofHeap true r.ok (drowDestroy r (drowDestroy tmp h2))
+    | (false, tmp, h2) => Outcome.ofHeap false tmp.ok (drowDestroy tmp (drowDestroy r h2))   -- after the swap
 
 /-! ## Swapping_Vector -/
 
@@ -439,14 +468,14 @@ def helperLoop : Nat → CSeq → Heap → Bool × CSeq × Heap
 `add_constraint_helper` for each of the `n` constraints.  If one of them throws, the members are
 destroyed (`input_cs` releases its buffer) but `~MIP_Problem()` — which deletes the constraints —
 is not run. -/
-def mipCtor (n : Nat) (h : Heap) : Outcome :=
+def mipCtorAsWritten (n : Nat) (h : Heap) : Outcome :=
   match helperLoop n { buf := none, cap := 0, ptrs := [] } h with
   | (true, s, h1) => Outcome.ofHeap true true (mipMembersOnly s h1)
   | (false, s, h1) => Outcome.ofHeap false s.ok (mipDestroy s h1)
 
 /-- `MIP_Problem::MIP_Problem(const MIP_Problem& y)`: `input_cs.reserve(y.input_cs.size())` and
 then the same loop. -/
-def mipCopy (n : Nat) (h : Heap) : Outcome :=
+def mipCopyAsWritten (n : Nat) (h : Heap) : Outcome :=
   if n = 0 then Outcome.ofHeap false true h else
   match h.alloc with                                   -- input_cs.reserve(y.input_cs.size())
   | (none, h1) => Outcome.ofHeap true true h1
@@ -455,9 +484,20 @@ def mipCopy (n : Nat) (h : Heap) : Outcome :=
     | (true, s1, h2) => Outcome.ofHeap true true (mipMembersOnly s1 h2)
     | (false, s1, h2) => Outcome.ofHeap false s1.ok (mipDestroy s1 h2)
 
+/-- The copy constructor after fix_c14_mip_ctor_constraint_leak: reservation and copies inside a
+`try`, the handler deletes the copies made so far. -/
+def mipCopy (n : Nat) (h : Heap) : Outcome :=
+  if n = 0 then Outcome.ofHeap false true h else
+  match h.alloc with
+  | (none, h1) => Outcome.ofHeap true true h1
+  | (some b, h1) =>
+    match helperLoop n { buf := some b, cap := n, ptrs := [] } h1 with
+    | (true, s1, h2) => Outcome.ofHeap true true (mipDestroy s1 h2)
+    | (false, s1, h2) => Outcome.ofHeap false s1.ok (mipDestroy s1 h2)
+
 /-- The constructor with the clean-up a destructor would do (what a `try`/`catch` in the body, or
 a vector of owning pointers, would give). -/
-def mipCtorGuarded (n : Nat) (h : Heap) : Outcome :=
+def mipCtor (n : Nat) (h : Heap) : Outcome :=
   match helperLoop n { buf := none, cap := 0, ptrs := [] } h with
   | (true, s, h1) => Outcome.ofHeap true true (mipDestroy s h1)
   | (false, s, h1) => Outcome.ofHeap false s.ok (mipDestroy s h1)
@@ -505,23 +545,28 @@ def initialLive (pre : Nat) : List Nat := (List.range pre).reverse
 
 namespace Run
 def cotreeCopy (x : List Bool) (pre k : Nat) : Outcome := Alloc.cotreeCopy x (Heap.start pre k)
+def cotreeIterAsWritten (n pre k : Nat) : Outcome := Alloc.cotreeIterAsWritten n (Heap.start pre k)
 def cotreeIter (n pre k : Nat) : Outcome := Alloc.cotreeIter n (Heap.start pre k)
-def cotreeIterGuarded (n pre k : Nat) : Outcome := Alloc.cotreeIterGuarded n (Heap.start pre k)
-def cotreeAssign (m : Nat) (x : List Bool) (pre k : Nat) : Outcome :=
-  let (t0, h) := buildTree m (Heap.start pre k); Alloc.cotreeAssign t0 x h
+def cotreeAssignAsWritten (m : Nat) (x : List Bool) (pre k : Nat) : Outcome :=
+  let (t0, h) := buildTree m (Heap.start pre k); Alloc.cotreeAssignAsWritten t0 x h
 def denseCopy (m cap pre k : Nat) : Outcome := Alloc.denseCopy m cap (Heap.start pre k)
 def denseResize (m cap newSize pre k : Nat) : Outcome :=
   let (r, h) := buildRow m cap (Heap.start pre k); Alloc.denseResize r newSize h
 def svecPush (m cap pre k : Nat) : Outcome :=
   let (v, h) := buildVec m cap (Heap.start pre k); Alloc.svecPush v h
-def denseAssignSparse (m0 cap m pre k : Nat) : Outcome :=
-  let (r, h) := buildRow m0 cap (Heap.start pre k); Alloc.denseAssignSparse r m h
+def denseAssignSparseAsWritten (m0 cap m pre k : Nat) : Outcome :=
+  let (r, h) := buildRow m0 cap (Heap.start pre k); Alloc.denseAssignSparseAsWritten r m h
 def pipClone (guard : Bool) (t : PNode) (pre k : Nat) : Outcome := Alloc.pipClone guard t (Heap.start pre k)
 def mipAdd (m cap pre k : Nat) : Outcome :=
   let (s, h) := buildSeq m cap (Heap.start pre k); Alloc.mipAdd s h
-def mipCtor (n pre k : Nat) : Outcome := Alloc.mipCtor n (Heap.start pre k)
+def mipCtorAsWritten (n pre k : Nat) : Outcome := Alloc.mipCtorAsWritten n (Heap.start pre k)
+def mipCopyAsWritten (n pre k : Nat) : Outcome := Alloc.mipCopyAsWritten n (Heap.start pre k)
 def mipCopy (n pre k : Nat) : Outcome := Alloc.mipCopy n (Heap.start pre k)
-def mipCtorGuarded (n pre k : Nat) : Outcome := Alloc.mipCtorGuarded n (Heap.start pre k)
+def cotreeAssign (m : Nat) (x : List Bool) (pre k : Nat) : Outcome :=
+  let (t0, h) := buildTree m (Heap.start pre k); Alloc.cotreeAssign t0 x h
+def denseAssignSparse (m0 cap m pre k : Nat) : Outcome :=
+  let (r, h) := buildRow m0 cap (Heap.start pre k); Alloc.denseAssignSparse r m h
+def mipCtor (n pre k : Nat) : Outcome := Alloc.mipCtor n (Heap.start pre k)
 end Run
 
 end PPLV.Alloc
